@@ -32,7 +32,7 @@ NOTES = {
     "C07c": "first run: exit 2 (numpy.fromiter not modelled), then exit 0 (no case had compensating defects in two rows); reported since both were added",
     "C14c": "C14 itself is inconclusive on this change (Euler-angle code on a symbolic quaternion: not encodable); the stale matrix view is reported by C08",
     "C09d": "not seen by the run recorded here (so3_log(R, return_skew=True) was not exercised); the clause 'the skew form is hat() of the rotation vector and has the "
-            "rotation angle as magnitude' was added afterwards; its run against this change did not finish before the end of the session",
+            "rotation angle as magnitude' was added afterwards; a run of the quick check with that clause against this change was stopped after 400 s without a verdict (exit 124 of timeout: not a pass, not a report)",
     "C02d": "the pair selection is owned by C10 (id_pairs_from_delta), which reports it; C02 takes the selected pairs as given",
     "C10a": "the solver finds a counterexample sitting exactly on a threshold; it does not reproduce in binary64: exit 3, no VIOLATION line",
 }
